@@ -161,6 +161,12 @@ fn run_mode(ctx: &mut Ctx, mode: Mode) {
                         if !name.starts_with("test::") {
                             continue;
                         }
+                        // compiler-generated functions (loop bodies, closures: `test::f[38-114]`) take the captured
+                        // variables as parameters in an order the configuration may change: the same argument
+                        // vector is not the same input, so they are not compared across configurations
+                        if mode == Mode::Diff && name.contains('[') {
+                            continue;
+                        }
                         let Some(inputs) = input_vectors(&prog, func, small, max_params, max_vectors) else {
                             if cfg_i == 0 {
                                 ctx.count("functions_skipped_non_scalar_params", 1);
